@@ -154,7 +154,7 @@ func runEval(hdr Header, c any, src string) CaseResult {
 	var sampleInst []any
 	for i, e := range exp {
 		es := e.(string)
-		if es == "x" {
+		if es == "x" || es == "?" {
 			res.Skipped++
 			continue
 		}
